@@ -16,6 +16,7 @@ import (
 	"fmt"
 	"os"
 	"sort"
+	"strconv"
 	"strings"
 	"testing"
 
@@ -50,10 +51,12 @@ func init() {
 	}
 }
 
+var poolNames = [poolSize]string{"v0", "v1", "v2", "v3", "v4", "v5", "v6", "v7", "v8", "v9", "v10", "v11"}
+
 func name(a common.Address) string {
 	for i := range pool {
 		if pool[i] == a {
-			return fmt.Sprintf("v%d", i)
+			return poolNames[i]
 		}
 	}
 	if a == (common.Address{}) {
@@ -79,15 +82,20 @@ func toValidators(cs []chg) []*types.Validator {
 }
 
 func valsText(vs []*types.Validator) string {
-	var b strings.Builder
+	b := make([]byte, 0, 48*len(vs))
 	for _, v := range vs {
 		if v == nil {
-			b.WriteString("nil,")
+			b = append(b, "nil,"...)
 			continue
 		}
-		fmt.Fprintf(&b, "%s:%d:%d,", name(v.Address), v.VotingPower, v.ProposerPriority)
+		b = append(b, name(v.Address)...)
+		b = append(b, ':')
+		b = strconv.AppendInt(b, v.VotingPower, 10)
+		b = append(b, ':')
+		b = strconv.AppendInt(b, v.ProposerPriority, 10)
+		b = append(b, ',')
 	}
-	return b.String()
+	return string(b)
 }
 
 // snap is the observable content of a set: members in order with power and priority, proposer address, total.
@@ -96,7 +104,7 @@ func snap(vs *types.ValidatorSet) string {
 	if vs.Proposer != nil {
 		p = name(vs.Proposer.Address)
 	}
-	return fmt.Sprintf("%s|prop=%s|tot=%d", valsText(vs.Validators), p, vs.TotalVotingPower())
+	return valsText(vs.Validators) + "|prop=" + p + "|tot=" + strconv.FormatInt(vs.TotalVotingPower(), 10)
 }
 
 // cloneSet is the harness's own deep copy (ValidatorSet.Copy is itself under test).
@@ -184,6 +192,7 @@ type world struct {
 	needRounds  int64
 	nontrivial  bool
 	maxAbs      int64
+	lean        bool // drift prelude: model comparison only, no permutations / snapshots (they are exercised elsewhere)
 	dead        bool // a listed known finding other than D3 was hit: the rest of the history is not executed
 
 	// TestStateUpdate: the model before the block and the block's change set (key attribution on failure only)
@@ -229,6 +238,7 @@ func (w *world) settle(action string, f func(m *model), checkProposer bool, newc
 	if w.mode == modeSpec {
 		alt := w.spec.clone()
 		alt.rescale = false
+		w.spec.clipped, alt.clipped = false, false
 		f(w.spec)
 		f(alt)
 		if w.spec.fired {
@@ -254,6 +264,7 @@ func (w *world) settle(action string, f func(m *model), checkProposer bool, newc
 		w.report(action, d, w.spec, newcomers, fmt.Sprintf(" (without the window step the model would give %s)", alt))
 		return
 	}
+	w.alt.clipped, w.spec.clipped = false, false
 	f(w.alt)
 	f(w.spec)
 	var d *mismatch
@@ -543,6 +554,16 @@ func (w *world) update(changes []chg) {
 	}
 	m := w.cur()
 	kinds := m.classify(changes)
+	if w.lean && len(kinds) == 0 {
+		w.logf("upd:%s", chgText(changes))
+		var err error
+		ev.Guard(w.t, w.text, func() { err = w.vs.UpdateWithChangeSet(toValidators(changes)) })
+		if err != nil {
+			ev.Violation(w.t, "update.valid-rejected", w.text(), "valid change set [%s] rejected: %v", chgText(changes), err)
+		}
+		w.settle("update", func(mm *model) { mm.update(changes) }, false, nil)
+		return
+	}
 	pre := snap(w.vs)
 	preSet := cloneSet(w.vs)
 	in := toValidators(changes)
@@ -654,6 +675,8 @@ func drift(t ev.TB, steps int) *world {
 		initial = append(initial, chg{pool[i], 1})
 	}
 	w := newWorld(t, initial)
+	w.lean = true
+	defer func() { w.lean = false }()
 	lows := append([]common.Address{}, pool[1:10]...)
 	spare := []common.Address{pool[10], pool[11]}
 	for s := 0; s < steps && !w.dead; s++ {
@@ -681,9 +704,9 @@ func TestRotationModel(t *testing.T) {
 	maxSteps := ev.Scale("STEPS", 24)
 	rapid.Check(t, func(t *rapid.T) {
 		var w *world
-		if rapid.IntRange(0, 15).Draw(t, "drift") == 0 {
+		if rapid.IntRange(0, 39).Draw(t, "drift") == 39 {
 			// start from a state in which valid change sets alone have driven a priority far out (see drift)
-			w = drift(t, rapid.IntRange(10, 90).Draw(t, "driftsteps"))
+			w = drift(t, rapid.IntRange(30, 90).Draw(t, "driftsteps"))
 			w.class("init-drifted")
 		} else {
 			initial, shape := genInitial(t)
